@@ -6,6 +6,7 @@ CONSTANTS
   Origins = {2}
   Tables = {0, 1, 2, 3}
   Triples = FALSE
+  MaxArr = 3
   Full = FALSE
 INVARIANT AllRotations
 ACTION_CONSTRAINT Emit
